@@ -119,6 +119,12 @@ CLAIMED = {
   text="Sampled schedules of generated call mixes: quick 2 240 programs (small ones run 3x), thorough 22 400 programs with ~56 000 repeat executions; every small program (<=4 goroutines x <=8 calls) is decided linearizable or not against a sequential specification that is the component itself (state compared by a structural fingerprint), so purely sequential defects stay with C09/C10/C16/C20. Six genuine concurrency defects found and repaired (two lazy-decompression races, three unlocked pool paths, one check-then-act in AddValidator that only linearizability could see); eleven mutants (dropped locks, RLock-only writers, check-then-act, a concurrency-only deadlock) are all caught, the lock mutants in 5/5 runs.",
   note="Schedules are sampled, not enumerated; the race detector widens each executed schedule to its happens-before class, so absence of a report is not absence of a race. Small programs use an atomic stamp counter that orders non-overlapping calls. Callbacks invoked under the fork-choice lock are assumed to touch nothing shared. A schedule-dependent replay is looped up to 200 times. Two C17 runs must not execute at once (shared in-flight files). SyncCommitteeMessages.Select has no shared instance and is not covered.",
   ref="§3 C17"),
+ "C12": dict(
+  technique="model-based property testing (rapid) of the eight gossip validators against a concrete in-memory chain backend (block trees with forks, a finalized point, a scripted millisecond clock, logged seen-caches); a reference model evaluates the p2p spec's per-topic condition lists on the reference chain view; inputs are honest messages of every topic plus a 103-entry single-condition corruption catalogue incl. clock edges at +-1 ms of each bound; 'refused then honest' and 'honest then duplicate' sequences check the cache side effects",
+  level="exploration",
+  text="Every row of the phase0/altair gossip rule tables is exercised, corrupted and honest, in every fork from phase0 to capella at every seed (87 mandatory classes): honest messages must be ACCEPTed, a message violating a condition must never be ACCEPTed, timing-class conditions (unknown parent/target, duplicate, clock window incl. the 500 ms disparity edges, finalized subtree) must give IGNORE, Mark* is called iff ACCEPT with the rule's cache key, and the honest message sent after a refused one must be ACCEPTed. Chain views (about 112 per quick run, about 1130 thorough), committees, validators, slots and clock offsets are sampled. Fifteen genuine defects found and repaired (outer aggregate signature over two bytes, marking before the proposer check, missing target-ancestor and block-seen checks, wrong sync committee at a period's last slot, previous-slot sync messages accepted, finalized-checkpoint rule by tree descent only, ...).",
+  note="Trusted: gossipmodel (harness transcription of the phase0/altair p2p rules the package quotes) and refspec for signing roots. Outside the modelled rule set: multi-condition corruptions, bellatrix-payload / capella BLS-change / deneb-window / superset-aggregate rules. The block seen-cache is read as 'ACCEPTed blocks' (the property's reading). The backend ignores the validators' 2 s wall-clock catch-up deadline so that verdicts do not depend on machine load. Three redundant validator checks are indistinguishable at verdict level (equivalent mutants).",
+  ref="§3 C12, Appendix B"),
 }
 PENDING_REASON = "check not built yet in this session (designed in DESIGN.md §3; will be claimed when its machinery is committed)"
 
